@@ -50,3 +50,40 @@ package tabula
 //@   property C10
 //@   flags frameonly, noalias
 //@   fresh pages
+
+// ---- C10: after any terminal operation, successful or failed, no file handle remains open ----
+// typestate rule: a successful ensureReader() is immediately followed by `defer e.Close()`, so the reader opened for
+// this operation is closed on every exit.  (PageCount, IsCharacterLevel and IsMultiColumn are not terminal.)
+//@ func (*Extractor) Text
+//@   property C10
+//@   flags frameonly, releases
+//@ func (*Extractor) ToMarkdownWithOptions
+//@   property C10
+//@   flags frameonly, releases
+//@ func (*Extractor) Fragments
+//@   property C10
+//@   flags frameonly, releases
+//@ func (*Extractor) Lines
+//@   property C10
+//@   flags frameonly, releases
+//@ func (*Extractor) Paragraphs
+//@   property C10
+//@   flags frameonly, releases
+//@ func (*Extractor) ReadingOrder
+//@   property C10
+//@   flags frameonly, releases
+//@ func (*Extractor) Analyze
+//@   property C10
+//@   flags frameonly, releases
+//@ func (*Extractor) Headings
+//@   property C10
+//@   flags frameonly, releases
+//@ func (*Extractor) Lists
+//@   property C10
+//@   flags frameonly, releases
+//@ func (*Extractor) Blocks
+//@   property C10
+//@   flags frameonly, releases
+//@ func (*Extractor) Document
+//@   property C10
+//@   flags frameonly, releases
